@@ -509,10 +509,15 @@ func c02stepRestricted(reg *Registry, m *c02model, name string, ops []int) {
 	case 0: // push blob
 		rn := repos[verifChoose(name+".repo", 3)]
 		bi := verifChoose(name+".blob", 2)
-		variant := verifChoose(name+".variant", 4)
+		variant := verifChoose(name+".variant", 5)
 		desc := ociregistry.Descriptor{MediaType: "application/octet-stream", Digest: u.bdig[bi], Size: int64(len(u.blobs[bi]))}
 		digOK, sizeOK, mtOK := true, true, true
+		content := u.blobs[bi]
 		switch variant {
+		case 4:
+			// the reader yields nothing although the descriptor describes the blob
+			content = nil
+			digOK, sizeOK = false, false
 		case 1:
 			desc.Digest = "sha256:2222222222222222222222222222222222222222222222222222222222222222"
 			digOK = false
@@ -523,7 +528,7 @@ func c02stepRestricted(reg *Registry, m *c02model, name string, ops []int) {
 			desc.MediaType = ""
 			mtOK = false
 		}
-		_, err := reg.PushBlob(vctx, rn, desc, bytes.NewReader(u.blobs[bi]))
+		_, err := reg.PushBlob(vctx, rn, desc, bytes.NewReader(content))
 		want := m.pushBlob(rn, bi, digOK, sizeOK, mtOK)
 		verifAssert(c02class(err) == want, "push-blob-outcome")
 	case 1: // push manifest
